@@ -213,6 +213,14 @@ def symbolic_run(scenario, cfg, tier, *, max_paths=400, obl_timeout_ms=None, val
         P = Prover(c, timeout_ms=obl_timeout_ms)
         obs = scenario(V, P, cfg)
         r, s = c.check(timeout_ms=obl_timeout_ms)
+        if str(r) == "unknown":
+            # vacuity guard only: a solver-verified witness with pinned inputs shows the path is feasible
+            r2, s2 = c.check_pinned()
+            if str(r2) == "sat":
+                r, s = r2, s2
+        if str(r) == "unknown" and os.environ.get("SYMX_FEAS_DEBUG"):
+            with open(os.environ["SYMX_FEAS_DEBUG"], "a") as fh:
+                fh.write("; item %s: feasibility unknown (%s)\n%s\n" % (cfg.get("id"), s.reason_unknown(), s.to_smt2()))
         info = dict(P=P, feas=str(r))
         if str(r) == "sat" and validate and "env" not in twin and obs is not None:
             env = spread_model(c, seed=seed) or model_env(s.model(), c)
